@@ -116,7 +116,7 @@ def order_family(perm, default_ns=False, two_files=False):
     f0 = build(0, "http://zv.test/order/main", "" if default_ns else "tns")
     files = [f0]
     start = "f0.xsd"
-    if two_files:
+    if two_files and two_files != "mutual":
         # f0 and f1 are twins (same layout, neither imports anything); a third file is the start file and imports both
         f1 = build(1, "http://zv.test/order/twin", "" if default_ns else "tns")
         f2 = _file(2, "http://zv.test/order/start", {2: "st", 0: "ma", 1: "tw"}, [0, 1] if perm[0] % 2 else [1, 0])
@@ -136,6 +136,14 @@ def order_family(perm, default_ns=False, two_files=False):
         f2.components = [cross, both] if perm[2] % 2 else [both, cross]
         files += [f1, f2]
         start = "f2.xsd"
+    if two_files == "mutual":
+        # the twins import each other (both start with exactly one import, so their layouts stay the same) and the first one is
+        # the start file: what the imported twin resolved on demand must not leak into the importing one
+        f0m = build(0, "http://zv.test/order/main", "" if default_ns else "tns")
+        f1m = build(1, "http://zv.test/order/twin", "" if default_ns else "tns")
+        f0m.imports, f1m.imports = [1], [0]
+        f0m.prefixes[1], f1m.prefixes[0] = "tw", "ma"
+        files, start = [f0m, f1m], "f0.xsd"
     feats = {"order-family", "extension", "element-ref", "element-named-like-its-type", "attributes", "extension-attributes"}
     if default_ns:
         feats.add("own-namespace-as-default")
@@ -194,8 +202,9 @@ def order_family_programs(r, n):
     for k in range(n):
         perm = list(range(8))
         r.shuffle(perm)
-        dn, tf = bool(k & 1), bool(k & 2)
-        out.append(("order:" + "".join(map(str, perm)) + ("+default-ns" if dn else "") + ("+twin" if tf else ""),
+        dn = bool(k & 1)
+        tf = [False, True, "mutual", False][(k >> 1) & 3]
+        out.append(("order:" + "".join(map(str, perm)) + ("+default-ns" if dn else "") + ("+twin" if tf is True else ("+mutual-twin" if tf else "")),
                     order_family(perm, dn, tf)))
     return out
 
